@@ -174,6 +174,28 @@ theorem witnesses_after_repair :
     cells (runAll true (fun _ => 0) ancestorBytes init).h ((runAll true (fun _ => 0) ancestorBytes init).vals.getD 0 .err)
       = [some (.num 1), some (.num 2), some (.num 3)] := by decide
 
+/-! ### Part 4 — the repaired `with` computes the right value -/
+
+/-- `String.with` / `Bytes.with` at the end, as repaired: the new value reads as the old contents followed by the new
+element (for any in-bounds slice, any oracle) — the copy is a copy, and it is the parent that stays untouched -/
+theorem with_at_end_appends (orc : Oracle) (k : Kind) (h : Heap) (s : Slice) (off : Int) (aux : Nat) (c : V)
+    (hlen : (read h s).length = s.len) :
+    cells (seqWith true orc k h s off aux (off + s.len) c).1 (seqWith true orc k h s off aux (off + s.len) c).2
+      = read h s ++ [some c] ∧
+    read (seqWith true orc k h s off aux (off + s.len) c).1 s = read h s := by
+  refine ⟨seqWith_end_cells orc k h s off aux c hlen, ?_⟩
+  by_cases hs : s.arr < h.length
+  · exact read_frame (opOK_seqWith orc k h s off aux _ c hs).1 s hs
+  · -- a slice outside the heap reads as empty before and after
+    have hz : s.len = 0 := by
+      have e0 : read h s = [] := by
+        have e1 : h.getD s.arr [] = [] := by
+          simp [List.getD, List.getElem?_eq_none (Nat.le_of_not_lt hs)]
+        unfold read
+        rw [e1]; simp
+      rw [e0] at hlen; simpa using hlen.symm
+    simp [read, hz]
+
 /-! ### Part 5 — regenerated facts: the write sites of rel/ and syntax/std_seq*.go -/
 
 /-- every `x[i] = v`, `append(x, …)`, `copy(x, …)` whose destination is not a slice made in the same function:
